@@ -41,6 +41,15 @@ def worker(chunk):
                 rec['handles'] = sum(t['handles'] for t in traces)
                 rec['assignments'] = [''.join(n['mode'][0] for n in v['nodes']) for v in variants]
                 infrag, _ = fragment.in_fragment(traces[0]['graph'])
+                for v, t in zip(variants, traces):
+                    if any(o[0] == 'reused-instance' for e in t['events'] for o in e.get('obs', [])) and not rec['viol']:
+                        # in the process pool the body works on a pickled copy of the node object, in the other modes on
+                        # the object itself: a reused object makes state kept on `self` visible in some modes only
+                        rec['viol'].append('a node object of an earlier invocation is reused for a later one (retry, '
+                                           're-iteration): state kept on self survives in coroutine / inline / thread '
+                                           'mode but not in process mode, so the outcome depends on the execution mode')
+                        rec['spec'] = v
+                        rec['choices'] = t['choices']
                 for v, t, d in zip(variants, traces, divs):
                     if d and not rec['div']:
                         rec['div'] = d
